@@ -286,6 +286,12 @@ class Summarizer:
                     typ = copy.deepcopy(h.type) if h.type is not None else ast.Name(id="BaseException", ctx=ast.Load())
                     handlers.append(ast.Tuple(elts=[typ, rh], ctx=ast.Load()))
                 return mk_call("__try__", rb, *handlers)
+            if isinstance(st, ast.For):
+                acc = self._accumulate_loop(st, env, localfns)
+                if acc is not None:
+                    name, value = acc
+                    env[name] = value
+                    continue
             if isinstance(st, (ast.For, ast.While)):
                 for name in self._assigned_names([st]):
                     env[name] = opaque("loop-assigned", ast.Constant(value=name))
@@ -300,6 +306,112 @@ class Summarizer:
             for name in self._assigned_names([st]):
                 env[name] = opaque("stmt", ast.Constant(value=type(st).__name__))
         return k(env)
+
+
+    # ------------------------------------------------------------------ accumulate loops
+    @staticmethod
+    def _empty_container(e: ast.expr) -> Optional[str]:
+        if isinstance(e, ast.List) and not e.elts:
+            return "list"
+        if isinstance(e, ast.Dict) and not e.keys:
+            return "dict"
+        if isinstance(e, ast.Call) and not e.args and not e.keywords:
+            f = u(e.func)
+            if f == "list":
+                return "list"
+            if f in ("dict", "collections.OrderedDict", "OrderedDict"):
+                return "dict"
+            if f == "set":
+                return "set"
+        return None
+
+    def _accumulate_loop(self, st: ast.For, env, localfns):
+        """`out = []; for x in it: [if c: continue] [t = e] out.append(f(x))` is the comprehension
+        `[f(x) for x in it if not c]` (likewise set.add, dict stores / setdefault, an if/else of two appends, a
+        filtering `if c: out.append(..)`); a second such loop on the same list concatenates.  Returns
+        (container name, comprehension) or None when the loop is anything else."""
+        if st.orelse:
+            return None
+        body = list(st.body)
+        conds: List[ast.expr] = []
+        lenv = dict(env)
+        # loop targets shadow outer bindings
+        for n in ast.walk(st.target):
+            if isinstance(n, ast.Name):
+                lenv.pop(n.id, None)
+
+        def sub(e):
+            return self._subst(e, lenv, localfns)
+
+        def action(s: ast.stmt):
+            """-> (container, kind, elt | (key, value)) for an accumulate statement"""
+            if isinstance(s, ast.Expr) and isinstance(s.value, ast.Call) and isinstance(s.value.func, ast.Attribute) and isinstance(s.value.func.value, ast.Name):
+                c, meth, args = s.value.func.value.id, s.value.func.attr, s.value.args
+                if meth == "append" and len(args) == 1:
+                    return c, "list", sub(args[0])
+                if meth == "add" and len(args) == 1:
+                    return c, "set", sub(args[0])
+                if meth == "setdefault" and len(args) in (1, 2):
+                    return c, "dict", (sub(args[0]), sub(args[1]) if len(args) == 2 else copy.deepcopy(NONE))
+            if isinstance(s, ast.Assign) and len(s.targets) == 1 and isinstance(s.targets[0], ast.Subscript) and isinstance(s.targets[0].value, ast.Name) and not isinstance(s.targets[0].slice, ast.Slice):
+                return s.targets[0].value.id, "dict", (sub(s.targets[0].slice), sub(s.value))
+            return None
+
+        i = 0
+        while i < len(body) - 1:
+            s = body[i]
+            if isinstance(s, ast.If) and not s.orelse and len(s.body) == 1 and isinstance(s.body[0], ast.Continue):
+                conds.append(ast.UnaryOp(op=ast.Not(), operand=sub(s.test)))
+            elif isinstance(s, ast.Assign) and len(s.targets) == 1 and isinstance(s.targets[0], ast.Name):
+                lenv[s.targets[0].id] = sub(s.value)
+            elif isinstance(s, ast.Expr) and isinstance(s.value, ast.Constant):
+                pass
+            else:
+                return None
+            i += 1
+        last = body[-1]
+        elt = None
+        if isinstance(last, ast.If) and len(last.body) == 1 and len(last.orelse) <= 1:
+            a1 = action(last.body[0])
+            if a1 is None:
+                return None
+            if last.orelse:
+                a2 = action(last.orelse[0])
+                if a2 is None or a2[0] != a1[0] or a2[1] != a1[1] or a1[1] == "dict":
+                    return None
+                cont, kind, elt = a1[0], a1[1], ast.IfExp(test=sub(last.test), body=a1[2], orelse=a2[2])
+            else:
+                conds.append(sub(last.test))
+                cont, kind, elt = a1
+        else:
+            a = action(last)
+            if a is None:
+                return None
+            cont, kind, elt = a
+        cur = env.get(cont)
+        if cur is None:
+            return None
+        base_kind = self._empty_container(cur)
+        prev = None
+        if base_kind is None:
+            # a list that an earlier accumulate loop already filled
+            if kind == "list" and isinstance(cur, (ast.ListComp, ast.BinOp)):
+                prev = cur
+            else:
+                return None
+        elif base_kind != kind:
+            return None
+        # the container must not be used inside its own loop other than by the accumulate statement
+        uses = sum(1 for n in ast.walk(st) if isinstance(n, ast.Name) and n.id == cont)
+        if uses != (2 if isinstance(last, ast.If) and last.orelse else 1):
+            return None
+        gen = ast.comprehension(target=copy.deepcopy(st.target), iter=self._subst(st.iter, env, localfns), ifs=conds, is_async=0)
+        if kind == "list":
+            comp = ast.ListComp(elt=elt, generators=[gen])
+            return cont, (ast.BinOp(left=prev, op=ast.Add(), right=comp) if prev is not None else comp)
+        if kind == "set":
+            return cont, ast.SetComp(elt=elt, generators=[gen])
+        return cont, ast.DictComp(key=elt[0], value=elt[1], generators=[gen])
 
 
 SUMMARIZER = Summarizer()
